@@ -12,7 +12,8 @@ PROPS = ["C01", "C09"]
 
 def inputs(ctx):
     H = [(b"Host", b"h.example")]
-    mp = (b"--BB\r\nContent-Disposition: form-data; name=\"f1\"\r\n\r\nv1\r\n--BB\r\nContent-Disposition: form-data; name=\"file\"; filename=\"a.txt\"\r\n"
+    mp = (b"--BB\r\nContent-Disposition: form-data; name=\"f1\"\r\n\r\nv1\r\n--BB\r\nContent-Disposition: form-data; name=\"f2\"\r\n\r\nv2 longer value\r\n"
+          b"--BB\r\nContent-Disposition: form-data; name=\"file\"; filename=\"a.txt\"\r\n"
           b"Content-Type: text/plain\r\n\r\nfile data\r\n--BB--\r\n")
     import gzip, zlib
     gz = gzip.compress(b"hello compressed world " * 20)
